@@ -164,6 +164,8 @@ bool mutate(Built &b, const J &mut)
             }
         } else if (attr == "varOther") { // a variable of another component
             reset->setVariable(b.varAt[static_cast<size_t>(mut["oc"].num())][0]);
+        } else if (attr == "tvarOther") { // test variable y of another component
+            reset->setTestVariable(b.varAt[static_cast<size_t>(mut["oc"].num())][1]);
         } else if (attr == "var" || attr == "tvar") {
             size_t ci = static_cast<size_t>(t["c"].num());
             VariablePtr nv = mut["val"].str() == "none" ? nullptr : b.varAt[ci][static_cast<size_t>(atoi(val.c_str()))];
@@ -409,6 +411,7 @@ static void collectVars(const ComponentPtr &c, std::vector<VariablePtr> &out)
 static void cloneDrv(const J &sc, Emitter &out)
 {
     Built a = buildModel(sc["am"]);
+    bool preOk = sc["pre"].k != J::OBJ || mutate(a, sc["pre"]); // a preparation that leaves the content (by names) unchanged
     const J &t = sc["t"];
     Chain ch = chainOf(a, t);
     EntityPtr target = ch.levels.back();
@@ -417,7 +420,7 @@ static void cloneDrv(const J &sc, Emitter &out)
     ev.set("e", "clone").set("fv", sc["fv"]).set("t", t).set("mut", sc["mut"]).set("side", sc["side"]).set("kind", kind);
     J before = contentOf(a.model);
     EntityPtr c = cloneOf(kind, target);
-    ev.set("cloned", J(c != nullptr));
+    ev.set("cloned", J(c != nullptr && preOk));
     ev.set("origUnchangedByClone", J(contentOf(a.model).dump() == before.dump()));
     auto pe = std::dynamic_pointer_cast<ParentedEntity>(c);
     ev.set("parentless", J(!pe || pe->parent() == nullptr));
